@@ -100,3 +100,15 @@ CLAIMS["C08"] = ("interprocedural must-held lockset dataflow + blocking-primitiv
  "reads a flag the close path assigns; close() releases selector registration and socket(s) on every non-exceptional path; "
  "Diameter.start rebuilds association and state machine and resets the stop flag. Thread termination under all interleavings is not "
  "decided.", "DESIGN.md section 4, C08")
+CLAIMS["C04"] = ("field-granular taint propagation from sock.recv to the decode entry with carry-over / completeness-guard rules, buffer-conservation rule, lockset dataflow on the shared buffer, must-pass exactly-once and who-may-put rules per hop",
+ "Location-independent necessary structure of a fragment-tolerant receive path: a persistent buffer between recv and the decoder is "
+ "partially consumed (carry-over), a comparison of buffered length with the decoded Message Length governs what is decoded, receive "
+ "buffers are only appended / transferred / partially consumed, every read-modify-write of the shared buffer and its availability "
+ "event holds a common lock, each hop hands a message over exactly once through a FIFO with a single producer site. The "
+ "segmentation x interleaving quantifier itself is not decided.", "DESIGN.md section 4, C04")
+CLAIMS["C05"] = ("buffer-conservation and partial-write rules with sibling comparison, must-clear (consume-once) summaries over the call graph, dominator check of the mask downgrade, path enumeration of the send path, lockset dataflow",
+ "Both _write implementations drop exactly the sent prefix; outbound buffers are only appended / transferred / trimmed; the selector "
+ "mailbox must be cleared before the next select(); every downgrade to read-only is dominated by 'nothing pending'; accepted messages "
+ "are put once, serialised once, never re-enqueued, and the stream reaches the transport hand-off; mask changes and queue operations "
+ "hold their locks. Three genuine defects of the hand-off design are listed known findings (5 obligations). Interleavings are not "
+ "decided.", "DESIGN.md section 4, C05")
